@@ -1,8 +1,14 @@
 import RdfModel.Props.C19
 import RdfModel.Props.C19Facts
 #print axioms RdfModel.C19.literal_key_injective
+#print axioms RdfModel.C19.literal_key_collision_illformed
 #print axioms RdfModel.C19.intern_injective
 #print axioms RdfModel.C19.termEquals_iff_eq
+#print axioms RdfModel.C19.literal_equals_iff_eq
+#print axioms RdfModel.C19.termEquals_symm
+#print axioms RdfModel.C19.termEquals_iff_eq_identity
+#print axioms RdfModel.C19.equals_spec_identity
+#print axioms RdfModel.C19.equalsOneOf_mem_identity
 #print axioms RdfModel.C19.refines_set
 #print axioms RdfModel.C19.reachable_step
 #print axioms RdfModel.C19.iterate_matchers
